@@ -241,7 +241,8 @@ def run_asyncio(case):
                     for _ in range(10000):
                         new = tr.out[consumed[0]:]
                         consumed[0] = len(tr.out)
-                        reply = reactor.react(b"".join(d for _, d in new), loop.time())
+                        # (the client saw these bytes when they were written, which need not be now: the script may have come to rest earlier)
+                        reply = reactor.react(b"".join(d for _, d in new), new[-1][0] if new else loop.time())
                         if not reply:
                             break
                         for r in reply:
@@ -514,7 +515,7 @@ def run_trio(case):
                     for _ in range(10000):
                         new = inner.out[consumed[0]:]
                         consumed[0] = len(inner.out)
-                        reply = reactor.react(b"".join(d for _, d in new), trio.current_time())
+                        reply = reactor.react(b"".join(d for _, d in new), new[-1][0] if new else trio.current_time())
                         if not reply:
                             break
                         for r in reply:
